@@ -499,6 +499,77 @@ func run1DObligations() {
 		})
 }
 
+// run1DHintCombos: an upside-down or sideways symbol is read on a second attempt (reversed row,
+// rotated image) for which the reader rebuilds its hint map when a result-point callback is
+// given. Whatever hints the caller passed must act on that attempt exactly as on an upright
+// symbol: for every symbol the read of the turned image under a hint set must give the text the
+// upright image gives under the SAME hint set (row-level hints change the text: Codabar start/end
+// characters, the GS1 prefix of Code 128, the lengths ITF accepts).
+func run1DHintCombos() {
+	specs := oneDSpecs([]int{30}, 30)
+	cb := gozxing.ResultPointCallback(func(gozxing.ResultPoint) {})
+	type hs struct {
+		name string
+		mk   func(s spec) map[gozxing.DecodeHintType]interface{}
+	}
+	rowHints := func(s spec) map[gozxing.DecodeHintType]interface{} {
+		return map[gozxing.DecodeHintType]interface{}{
+			gozxing.DecodeHintType_RETURN_CODABAR_START_END: true,
+			gozxing.DecodeHintType_ASSUME_GS1:               true,
+			gozxing.DecodeHintType_ALLOWED_LENGTHS:          []int{len(s.expect()), len(s.Content)},
+			gozxing.DecodeHintType_ALLOWED_EAN_EXTENSIONS:   []int{0, 2, 5}[:0],
+		}
+	}
+	sets := []hs{
+		{"callback", func(s spec) map[gozxing.DecodeHintType]interface{} {
+			return map[gozxing.DecodeHintType]interface{}{gozxing.DecodeHintType_NEED_RESULT_POINT_CALLBACK: cb}
+		}},
+		{"row-hints", rowHints},
+		{"callback+row-hints", func(s spec) map[gozxing.DecodeHintType]interface{} {
+			h := rowHints(s)
+			h[gozxing.DecodeHintType_NEED_RESULT_POINT_CALLBACK] = cb
+			return h
+		}},
+	}
+	chk.Range(fmt.Sprintf("1-D hint combinations on turned symbols: %s, MARGIN 30, height 30, scale 2, padding 5 x rotation {180 plain, 180 / 90 / 270 TRY_HARDER} x hint sets {result-point callback, row-level hints (Codabar start/end, GS1, allowed lengths), both}: the text equals the text of the upright image under the same hints", countNames(specs)), len(specs),
+		func(i int) string { return specs[i].String() },
+		func(l *mc.Local, i int) {
+			s, base, err := drawFitting(specs[i])
+			if err != nil {
+				cannotDraw(specs[i], err)
+				return
+			}
+			for _, set := range sets {
+				delete(set.mk(s), gozxing.DecodeHintType_ALLOWED_EAN_EXTENSIONS)
+				h := set.mk(s)
+				delete(h, gozxing.DecodeHintType_ALLOWED_EAN_EXTENSIONS)
+				up := readImage(l, s, transform{Pad: 5, Scale: 2}.apply(base), false, h)
+				if up.kind != "ok" {
+					l.Count("hint_combo_upright_not_read", 1)
+					continue
+				}
+				for _, p := range []struct {
+					rot int
+					th  bool
+				}{{180, false}, {180, true}, {90, true}, {270, true}} {
+					t := transform{Pad: 5, Scale: 2, Rot: p.rot}
+					c := rcase{"image", s, t, p.th}
+					l.Beat(c.String() + " hints " + set.name)
+					o := readImage(l, s, t.apply(base), p.th, h)
+					l.Distinct("outcomes", fmt.Sprint("hintcombo", s.Sym, set.name, p.rot, o.kind))
+					l.Distinct("nontrivial", fmt.Sprint("hintcombo", s, set.name, t, p.th))
+					if o.kind == "panic" {
+						chk.Violation("C09/panic/"+o.site, fmt.Sprintf("%v hints %s: %s", c, set.name, o.err), c)
+						continue
+					}
+					if o.kind != "ok" || o.text != up.text {
+						chk.Violation(fmt.Sprintf("C09/1d/%s/turned-hints-differ/%s/rot%d", s.Sym, set.name, p.rot), fmt.Sprintf("%v with hint set %q: the turned image gives %s %q, the upright image under the same hints gives %q", c, set.name, o.kind, o.text, up.text), c)
+					}
+				}
+			}
+		})
+}
+
 // run1DAsymmetric: the same comfortable symbols placed off-centre - up to five symbol heights of
 // extra white on any subset of the four sides - and read under TRY_HARDER (which looks at every
 // row, not only the middle ones) in all four orientations.
@@ -694,6 +765,7 @@ func main() {
 	runQRBitsMirror()
 	run1DObligations()
 	run1DAsymmetric()
+	run1DHintCombos()
 	runFamily("QR (writer default quiet zone 4)", qrSpecs(), true)
 	runFamily("QR (MARGIN 0: the padding is the only quiet zone)", withMargin(qrSpecs(), 0), true)
 	runFamily("Data Matrix (writer draws no quiet zone)", dmSpecs(), false)
